@@ -365,11 +365,24 @@ pub fn res_history(ctx: &mut Ctx) {
     ctx.op(format!("res.new 1 {} {} {}", k, seed, forced.join(" ")));
     ctx.op("res.empty 1".into());
     ctx.op("res.get 1".into());
-    for i in 0..n {
+    let mut i = 0u64;
+    while i < n {
+        if ctx.rng.chance(1, 12) {
+            // a batch through Extend (any point of the stream, any phase)
+            let len = ctx.rng.range(1, (2 * k).max(3)).min(n - i);
+            let items: Vec<String> = (i..i + len).map(|x| x.to_string()).collect();
+            ctx.op(format!("res.extend 1 {}", items.join(" ")));
+            ctx.op("res.get 1".into());
+            ctx.stat("res.extend", 1);
+            i += len;
+            continue;
+        }
         ctx.op(format!("res.add 1 {}", i));
         if i < k + 2 || ctx.rng.chance(1, 6) || i + 1 == 4 * k || i == 4 * k {
             ctx.op("res.get 1".into());
         }
+        i += 1;
+        let i = i - 1;
         if ctx.rng.chance(1, 60) {
             ctx.op("res.clone 1 2".into());
             ctx.op("res.add 2 999999".into());
@@ -408,7 +421,28 @@ pub fn lossy_history(ctx: &mut Ctx, n: u64) {
     ctx.op("lossy.getters 1".into());
     let alpha = *ctx.rng.pick(&[2u64, 5, 20, 1000]);
     let adversarial = ctx.rng.chance(1, 3);
+    // window-aligned stream: a hot element exactly on the first and last position of each window,
+    // fresh elements in between (worst case for the table bound)
+    let aligned = ctx.rng.chance(1, 4);
+    let width_guess: u64 = {
+        // read back the width from the getters answer
+        let g = ctx.ans.last().cloned().unwrap_or_default();
+        g.split_whitespace().nth(1).and_then(|x| x.parse().ok()).unwrap_or(8)
+    };
+    if aligned {
+        ctx.stat("lossy.aligned", 1);
+    }
     for t in 0..n {
+        if aligned {
+            let pos = (t + 1) % width_guess;
+            let key = if pos == 0 || pos == 1 { 7 } else { 100_000 + t };
+            ctx.op(format!("lossy.add 1 {}", key));
+            if ctx.rng.chance(1, 6) || pos == 0 {
+                ctx.op(format!("lossy.query 1 {}", fx(0.0)));
+                ctx.op("lossy.n 1".into());
+            }
+            continue;
+        }
         // skewed alphabet; adversarial mode re-introduces element 7 right after window boundaries
         let key = if adversarial && ctx.rng.chance(1, 3) {
             7
@@ -462,7 +496,19 @@ pub fn heap_history(ctx: &mut Ctx, n: u64) {
         let id = if ctx.rng.chance(1, 2) { ctx.rng.below(alpha.min(3)) } else { ctx.rng.below(alpha) };
         let class = id % nclass;
         let cols: Vec<String> = crate::exec::heap_cols(w as usize, d as usize, class).iter().map(|c| c.to_string()).collect();
-        ctx.op(format!("heap.add 1 {} {} {}", id, class, cols.join(" ")));
+        if ctx.rng.chance(1, 15) {
+            // a small batch through Extend
+            let mut items = vec![format!("{}:{}:{}", id, class, cols.join(","))];
+            for _ in 0..ctx.rng.clone().below(3) {
+                let id2 = ctx.rng.below(alpha);
+                let c2 = id2 % nclass;
+                let cc: Vec<String> = crate::exec::heap_cols(w as usize, d as usize, c2).iter().map(|c| c.to_string()).collect();
+                items.push(format!("{}:{}:{}", id2, c2, cc.join(",")));
+            }
+            ctx.op(format!("heap.extend 1 {}", items.join(" ")));
+        } else {
+            ctx.op(format!("heap.add 1 {} {} {}", id, class, cols.join(" ")));
+        }
         ctx.op("heap.iter 1".into());
         if t % 17 == 5 {
             ctx.op("heap.empty 1".into());
@@ -569,7 +615,19 @@ pub fn td_history(ctx: &mut Ctx, n: u64) {
         ctx.op(op.into());
     }
     for i in 0..=16 {
-        ctx.op(format!("td.quantile 1 {}", fx(i as f64 / 16.0)));
+        let a = ctx.op(format!("td.quantile 1 {}", fx(i as f64 / 16.0)));
+        // mutual consistency: cdf at the value quantile just returned
+        if a.starts_with("f:") && !a.starts_with("f:7ff") && !a.starts_with("f:fff") {
+            ctx.op(format!("td.cdf 1 {}", &a[2..]));
+        }
+    }
+    for _ in 0..6 {
+        let q = ctx.rng.f01();
+        let q = if ctx.rng.chance(1, 3) { q * 0.02 } else if ctx.rng.chance(1, 2) { 1.0 - q * 0.02 } else { q };
+        let a = ctx.op(format!("td.quantile 1 {}", fx(q)));
+        if a.starts_with("f:") && !a.starts_with("f:7ff") && !a.starts_with("f:fff") {
+            ctx.op(format!("td.cdf 1 {}", &a[2..]));
+        }
     }
     if !inserted.is_empty() {
         let (lo, hi) = inserted.iter().fold((f64::INFINITY, f64::NEG_INFINITY), |(a, b), x| (a.min(*x), b.max(*x)));
@@ -589,8 +647,12 @@ pub fn td_history(ctx: &mut Ctx, n: u64) {
         ctx.op("td.count 1".into());
         ctx.op("td.clear 1".into());
         ctx.op("td.empty 1".into());
+        ctx.op(format!("td.quantile 1 {}", fx(0.5)));
+        ctx.op(format!("td.cdf 1 {}", fx(1.0)));
         ctx.op("td.count 1".into());
+        ctx.op("td.mean 1".into());
         ctx.op("td.min 1".into());
+        ctx.op("td.max 1".into());
         for i in 0..20 {
             ctx.op(format!("td.insert 1 {}", fx(i as f64 * 1.5)));
         }
